@@ -75,7 +75,7 @@ def connOp (toks : List String) : String :=
       | none => "bad-case"
       | some fr =>
         let dpu := okOr (x224Frame Mcs.disconnectUltimatum)
-        (if okc then "ok" else "E@connect") ++ " cr=" ++ toHex cr ++ " nla=" ++ hexOrDash nlaBytes ++ " frames=" ++ "+".intercalate (pre ++ fr ++ [dpu]) ++ " creds=" ++ creds ++ "\t-"
+        (if okc then "ok" else "E@connect") ++ " ahead=-" ++ " cr=" ++ toHex cr ++ " nla=" ++ hexOrDash nlaBytes ++ " frames=" ++ "+".intercalate (pre ++ fr ++ [dpu]) ++ " creds=" ++ creds ++ "\t-"
     | _, _, _, _, _, _ => "bad-case"
   | _, _, _, _, _, _, _ => "bad-case"
 
